@@ -2,6 +2,7 @@ package sim
 
 import (
 	"fmt"
+	"math"
 
 	"go.pennock.tech/tabular"
 )
@@ -78,6 +79,10 @@ func (w *World) renderDecoy(st *Step) {
 	d := NewWorld(0, "", nil, nil)
 	d.Tab.AddHeaders("decoy header one", "h2", "third")
 	d.Tab.AddRowItems("a much longer decoy cell than anything else", 1, true)
+	if st.C&1 != 0 {
+		// a cell the JSON renderer rejects after it has started writing
+		d.Tab.AddRowItems("ok", math.NaN())
+	}
 	d.Tab.AddSeparator()
 	d.Tab.AddRowItems("x\ny", "z")
 	d.Log = NewEventLog(false)
@@ -200,7 +205,21 @@ func (engC14) Gen(r *Rng, s *Script, idx int, tier string) {
 	}
 	autoFocus := r.Chance(1, 5)
 	family := !autoFocus && r.Chance(1, 6)
+	growth := r.Chance(1, 5)
 	for i := 0; i < nr; i++ {
+		if growth && i > 0 && r.Chance(1, 4) {
+			// the table changes between renders (wrappers kept by the caller stay in use)
+			switch r.Intn(4) {
+			case 0:
+				s.Steps = append(s.Steps, Step{Op: "rowItems", Items: genItems(r, r.Range(0, 4), level, &ctr)})
+			case 1:
+				s.Steps = append(s.Steps, Step{Op: "separator"})
+			case 2:
+				s.Steps = append(s.Steps, Step{Op: "appendNewRow"}, Step{Op: "rowAdd", A: 0, Items: genItems(r, 1, level, &ctr)})
+			default:
+				s.Steps = append(s.Steps, Step{Op: "headers", Items: genItems(r, r.Range(1, 5), 1, &ctr)})
+			}
+		}
 		st := genRenderStep(r, faultPct)
 		if focus >= 0 && r.Chance(1, 2) {
 			st.A = focus
@@ -218,7 +237,10 @@ func (engC14) Gen(r *Rng, s *Script, idx int, tier string) {
 				s.Steps = append(s.Steps, Step{Op: "decoyRender", A: FmtText, B: []int{4, 8, 5}[r.Intn(3)]})
 			}
 		} else if r.Chance(1, 8) {
-			s.Steps = append(s.Steps, Step{Op: "decoyRender", A: r.Intn(NFormats), B: r.Intn(NDecoChoices)})
+			s.Steps = append(s.Steps, Step{Op: "decoyRender", A: r.Intn(NFormats), B: r.Intn(NDecoChoices), C: r.Intn(2)})
+			if r.Chance(1, 2) {
+				s.Steps = append(s.Steps, Step{Op: "decoyRender", A: FmtJSON, C: 1})
+			}
 		}
 		if autoFocus && r.Chance(1, 2) {
 			// the auto routes, alternating the bare "texttable" style with named decorations
@@ -251,10 +273,16 @@ func (engC14) Exec(s *Script, keepLog bool) *Result {
 			return nil
 		}
 		if st.Op != "render" {
-			if snap0 != nil {
-				return nil // building after the first render is not part of this property
-			}
 			w.Apply(st)
+			if snap0 != nil {
+				// the caller changed the table between renders: a new baseline.  Every
+				// render from here on — through a fresh wrapper or through one kept
+				// from before the change — must agree with the first one after the
+				// change: nothing an earlier render left behind may show.
+				snap0 = nil
+				firsts = map[string]first{}
+				w.probe("table_changed_between_renders")
+			}
 			return nil
 		}
 		if snap0 == nil {
